@@ -17,6 +17,9 @@ def run(ctx):
         rp = ctx.save_replay(tr, "c18-trace.ndjson")
         ex = re.findall(r'server \|-> ("[^"]*")', r.out)
         ctx.violation("reg/nonconforming", "sessions that do not follow Registration.tla (dial address, registration burst, PONG or PING): " + msg[:400] + " servers: %s" % sorted(set(ex))[:6], rp)
+    m = re.search(r'"GROWTH",\s*(\d+)', r.out)
+    if m and int(m.group(1)):
+        ctx.drift.append("%s sessions answer CTCP VERSION / PING differently from Registration!CtcpAnswer (no listed property claims these answers)" % m.group(1))
     if s["sessions"] < 100 or s["tls_sessions"] == 0:
         raise common.Inconclusive("vacuous: %s" % s)
     ctx.traces_validated = s["sessions"]
